@@ -68,6 +68,9 @@ def run(prog, chk):
     if_element(prog, chk)
     condition_truth(prog, chk)
     var_assigned_in_rendering_passes(prog, chk)
+    loop_var_value_exact(prog, chk)
+    for_items_verbatim(prog, chk)
+    visited_starts_empty(prog, chk)
     extent_accumulation(prog, chk)
     from props import geomalg
     n = geomalg.check_sites(prog, chk, "C16")
@@ -412,3 +415,66 @@ def extent_accumulation(prog, chk):
             skipped = bool(tests) and bool(b.reach(starts, avoid=tests) & (exits | {h}))
             chk.ob(bool(tests) and not skipped, "A16.extent-accumulation", what + ":every-pass", b.where(h), f"{what}: every pass whose body was rendered contributes its box before the loop continues or ends", f"{what}: a pass can end (or the loop can be left) after rendering its body without adding the body's box to the accumulated extent - e.g. the last pass of an `until` loop is drawn but not counted in the root extent")
         chk.ob(ok, "A16.extent-accumulation", what, b.where(), f"{what} unions the boxes of all passes with BoundingBoxBuilder (extend in the loop, build at the end)", f"{what} no longer accumulates its extent with BoundingBoxBuilder::extend/build like the other repeating elements: a pass that renders nothing, or the first pass, can drop the accumulated extent")
+
+
+def loop_var_value_exact(prog, chk):
+    """the value bound to the loop variable is the accumulator's own decimal rendering (`to_string()` of the f64 that is
+    advanced by `step`): no cast to f32, no output-number formatting (3 decimals) in between"""
+    b = prog.body(LOOP)
+    n = 0
+    for (bb, t, c) in b.call_sites(R.path_is(SETVAR)):
+        if len(t["args"]) < 3:
+            continue
+        n += 1
+        o = R.origin(b, t["args"][2], carriers={"deref": 0, "as_str": 0, "borrow": 0})
+        ok = False
+        why = o[0]
+        if o[0] == "call" and "fn" in o[2]:
+            cal = Callee(o[2]["fn"])
+            why = cal.path
+            if cal.decl_path == "std::string::ToString::to_string":
+                src = R.origin_local(b, o[2]["args"][0])
+                ok = src is not None and (b.local_ty(src) or "").strip() == "f64"
+        chk.ob(ok, "A13.loop-var-exact", f"LoopElement:set_var#{n}", b.where(bb, t.get("line")), "the loop variable is set to to_string() of the f64 accumulator", f"the loop variable is not the accumulator's own rendering (it comes from {why}): with a step such as 0.0625 or 1e-5 the variable differs from start + k*step, so the loop no longer renders what its unrolling renders")
+    chk.floor("A13.loop-var-exact", n, 1, "set_var in LoopElement")
+
+
+FOR_ITEM_CALLEES_OK = ("clone", "push", "extend", "to_string_vec", "fstr", "new", "into_iter", "next", "iter", "deref", "with_capacity", "into_vec", "exchange_malloc", "from", "drop", "box_new", "write_via_move")
+
+
+def for_items_verbatim(prog, chk):
+    """<for> binds each list item as it is: ExprValue::to_string_vec (the only consumer is eval_list) renders numbers with
+    fstr and hands strings on unchanged - it calls nothing else"""
+    b = prog.body("svgdx::expression::ExprValue::to_string_vec")
+    chk.touch(b)
+    from props.C19 import TEXT_ALTERING
+    extra = sorted({c.path for (bb, t, c) in b.call_sites(lambda c: True) if (c.path.startswith("svgdx::") and c.path.split("::")[-1] not in ("fstr", "to_string_vec")) or (c.path.split("::")[-1] in TEXT_ALTERING and ("str" in c.path.lower())) or c.path.endswith("fmt::format")})
+    chk.ob(not extra, "A14.for-items-verbatim", "to_string_vec", b.where(), "list items are rendered by fstr (numbers) or cloned (strings); nothing else is applied", f"ExprValue::to_string_vec applies {extra} to list items: a <for> variable is no longer bound to the item as written (escaping / trimming / case changes alter strings with quotes, backslashes ...)")
+
+
+def visited_starts_empty(prog, chk):
+    """get_target_element's cycle detection starts from an empty `seen` list: elements of different loop passes share one
+    order index, so seeding it with the starting element reports a cycle for `use` chains across passes"""
+    b = prog.body("svgdx::element::SvgElement::get_target_element")
+    chk.touch(b)
+    cont = b.call_sites(lambda c: c.path.split("::")[-1] == "contains")
+    ok = False
+    why = "visited list not found"
+    for (bb, t, c) in cont:
+        l = R.origin_local(b, t["args"][0])
+        if l is None:
+            o = R.origin(b, t["args"][0], carriers={"deref": 0})
+            l = o[2]["args"][0] if False else None
+        # find the Vec local: receiver of push
+        for (pb, pt, pc) in b.call_sites(R.path_endswith("Vec::<T, A>::push")):
+            vl = R.origin_local(b, pt["args"][0])
+            if vl is None:
+                continue
+            inits = [d for d in b.defs_of(vl)]
+            srcs = []
+            for d in inits:
+                if d[1] == R.TERM and "fn" in d[2]:
+                    srcs.append(Callee(d[2]["fn"]).path)
+            why = str(srcs)
+            ok = bool(srcs) and all(x.endswith("Vec::<T>::new") or x.endswith("Vec::<T, A>::new") or x.endswith("::new") and "Vec" in x for x in srcs)
+    chk.ob(ok, "A13.visited-starts-empty", "get_target_element", b.where(), "the visited list starts empty", f"the visited list of get_target_element does not start empty (initialised by {why}): a reference chain that merely revisits the starting order index - as elements generated by different passes of a loop do - is reported as circular")
